@@ -431,6 +431,41 @@ func c12(env *Env, rep *Report) {
 		bindModes(rep, "C12")
 	}
 	rep.Bounds = map[string]any{"cases": len(cases)}
+	// within the token's lifetime means until its end: a file presented when its token has 240 / 20 / 6 seconds
+	// left (downloaded that long before the end of the five minutes) still opens the channel; one that is 90
+	// seconds over does not; and an entry that uses the user placeholder twice gives a file the tunnel accepts
+	if env.Shard == 0 || env.NShards == 1 {
+		for _, hosts := range [][]string{{"hosta.example:3389"}, {"{{ preferred_username }}-pc.{{ preferred_username }}.home.example:3389"}} {
+			for _, left := range []int{240, 20, 6, -90} {
+				distinct++
+				rep.add("executions", 1)
+				vclock.Reset()
+				mode := "roundrobin"
+				app := NewWebApp(WebCfg{Store: "cookie", HostSelection: mode, Hosts: hosts, VerifyClientIP: true})
+				b := fineLogin(app, "alice", "10.0.0.1:40000")
+				vclock.Advance(-time.Duration(300-left) * time.Second)
+				r := b.Do(app, "GET", "/connect")
+				vclock.Reset()
+				f := r.Body.String()
+				tgt, tok := rdpValue(f, "full address"), rdpValue(f, "gatewayaccesstoken")
+				i := strings.LastIndex(tgt, ":")
+				if r.Code != 200 || i < 0 {
+					rep.violate("C12/no-file-for-a-logged-in-session", fmt.Sprintf("hosts %v: status %d", hosts, r.Code), map[string]any{"noreplay": true})
+					continue
+				}
+				var port int
+				fmt.Sscan(tgt[i+1:], &port)
+				o := c12Tunnel(c12Case{Mode: mode, Hosts: hosts, Addr: addrForm{Name: "peer", Peer: "10.0.0.1:40000"}}, tok, tgt[:i], uint16(port), rep)
+				rep.outcome(fmt.Sprintf("lifetime left=%ds placeholder-twice=%v opened=%v", left, len(hosts[0]) > 30, o == ""))
+				switch {
+				case left > 0 && o != "":
+					rep.violate("C12/issued-file-refused-by-tunnel-checks/within-its-lifetime", fmt.Sprintf("hosts %v: file and token presented unmodified from the same address with %d s of the token's five minutes left: %s", hosts, left, o), map[string]any{"noreplay": true})
+				case left < 0 && o == "":
+					rep.violate("C12/issued-file-accepted-after-its-lifetime", fmt.Sprintf("hosts %v: presented %d s after the token's end (leeway 60 s)", hosts, -left), map[string]any{"noreplay": true})
+				}
+			}
+		}
+	}
 	distinct += c12Fine(env, rep)
 	rep.add("distinct", int64(distinct))
 	rep.add("states", int64(distinct))
